@@ -34,5 +34,6 @@ echo "== demo with patch" >>"$LOG"
 run_demo; with=$?
 echo "== suite with patch" >>"$LOG"
 pk=$(git diff --name-only | xargs -n1 dirname | sort -u | sed 's|^|./|' | paste -sd' ')
-timeout 3000 go test -count=1 -vet=off $pk >>"$LOG" 2>&1; suite=$?
+timeout 3000 go test -count=1 -vet=off -skip "^(TestSequenceLargeLog|TestCCADBRoots)\$" $pk >>"$LOG" 2>&1; suite=$?
+# TestSequenceLargeLog (1 s internal timeout, load sensitive) and TestCCADBRoots (needs network) are excluded here; tools/retest-large.sh re-runs the former alone
 echo "$D: build=$build demo_without=$without(want 0) demo_with=$with(want !=0) suite=$suite(want 0) pkgs=$pk" | tee -a "$LOG"
